@@ -42,7 +42,7 @@ CHECKS['C16'] = dict(
          dict(name='c16_otsu', src='harness/c16_otsu.cpp', deps=['harness/c16_common.hpp']),
          dict(name='c16_morph_median', src='harness/c16_morph_median.cpp', deps=['harness/c16_common.hpp'])] + _c16_f32_tu,
     runs=dict(
-        quick=[dict(tu='c16_threshold', group=g, shards=1) for g in ('thr_u8', 'thr_s8', 'thr_u16', 'thr_s16', 'thr_f32', 'thr_rgb8', 'thr_mixed')] + _c16_f32_run +
+        quick=[dict(tu='c16_threshold', group=g, shards=1) for g in ('thr_u8', 'thr_s8', 'thr_u16', 'thr_s16', 'thr_f32', 'thr_rgb8', 'thr_mixed', 'thr_layouts')] + _c16_f32_run +
               [dict(tu='c16_otsu', group=g, bounds=_c16_q_otsu, shards=2) for g in ('otsu_u8', 'otsu_s8', 'otsu_u16', 'otsu_s16')] +
               [dict(tu='c16_otsu', group=g, bounds=_c16_q_otsu, shards=1) for g in ('otsu_rgb8', 'otsu_rgb16')] +
               [dict(tu='c16_morph_median', group='morph', bounds=dict(PB=9, PT=6, PM=6, SE5=0), shards=4),
@@ -52,7 +52,7 @@ CHECKS['C16'] = dict(
                dict(tu='c16_morph_median', group='median_rgb8', bounds=dict(PCM=2), shards=1)],
         thorough=[dict(tu='c16_threshold', group=g, shards=2) for g in ('thr_u8', 'thr_s8', 'thr_rgb8')] +
                  [dict(tu='c16_threshold', group=g, bounds=dict(FULL16=1), shards=2) for g in ('thr_u16', 'thr_s16')] +
-                 [dict(tu='c16_threshold', group='thr_f32', shards=1), dict(tu='c16_threshold', group='thr_mixed', shards=2)] + _c16_f32_run +
+                 [dict(tu='c16_threshold', group='thr_f32', shards=1), dict(tu='c16_threshold', group='thr_mixed', shards=2), dict(tu='c16_threshold', group='thr_layouts', bounds=dict(LW=9, LH=6), shards=4)] + _c16_f32_run +
                  [dict(tu='c16_otsu', group=g, bounds=_c16_t_otsu, shards=12) for g in ('otsu_u8', 'otsu_s8', 'otsu_u16', 'otsu_s16')] +
                  [dict(tu='c16_otsu', group=g, bounds=_c16_t_otsu, shards=4) for g in ('otsu_rgb8', 'otsu_rgb16')] +
                  [dict(tu='c16_morph_median', group='morph', bounds=dict(PB=12, PT=8, PM=8, SE5=1), shards=48),
@@ -65,7 +65,7 @@ CHECKS['C16'] = dict(
         'thr_binary/inverse/explicit-max', 'thr_truncate/threshold/regular', 'thr_truncate/threshold/inverse',
         'thr_truncate/zero/regular', 'thr_truncate/zero/inverse', 'thr_type_u8', 'thr_type_s8', 'thr_type_u16',
         'thr_type_s16', 'thr_type_f32', 'thr_type_rgb8', 'thr_value_equals_threshold', 'thr_nothing_above',
-        'thr_channels_differ_per_pixel', 'thr_mixed_narrowing_changes_the_comparison',
+        'thr_channels_differ_per_pixel', 'thr_mixed_narrowing_changes_the_comparison', 'thr_contiguous_source_into_sub_view',
         'otsu_u8', 'otsu_s8', 'otsu_u16', 'otsu_s16', 'otsu_rgb8', 'otsu_rgb16', 'otsu_regular', 'otsu_inverse',
         'otsu_constant_image', 'otsu_empty_image',
         'morph_se3', 'morph_se5', 'morph_dilate_changes_image', 'morph_erode_changes_image', 'morph_opening_changes_image',
